@@ -35,6 +35,7 @@ let parse_case (toks : string list) : parsed =
   expect "S";
   let strat = strategy_of_N (num ()) in
   expect "E"; let _ = next () in let _ = next () in let _ = next () in
+  (if a.(!pos) = "R" then (let _ = next () in let _ = next () in let _ = next () in ()));
   expect "O"; let offered = rep (int_of_string (next ())) utxo in
   expect "P"; let pre = rep (int_of_string (next ())) utxo in
   expect "I"; let implicit = { coin = num (); multiasset_of = None } in
